@@ -66,8 +66,18 @@ def get_mask_with_key_joins(data, key_joins, subset_state, view=None):
             key_right_all = []
 
             for cid1_i, cid2_i in zip(cid1, cid2):
-                key_left_all.append(data.get_data(cid1_i, view=view).ravel())
-                key_right_all.append(other.get_data(cid2_i, view=mask_right).ravel())
+                key_left = data.get_data(cid1_i, view=view).ravel()
+                key_right = other.get_data(cid2_i, view=mask_right).ravel()
+                # The keys are compared through their bytes below, so both
+                # sides need to be stored with the same dtype for equal
+                # values to match (e.g. int32 vs int64, or <U2 vs <U5)
+                try:
+                    common = np.promote_types(key_left.dtype, key_right.dtype)
+                except TypeError:
+                    # e.g. text vs numbers - no two keys can be equal
+                    return np.zeros(data.get_data(cid1_i, view=view).shape, dtype=bool)
+                key_left_all.append(np.asarray(key_left, dtype=common))
+                key_right_all.append(np.asarray(key_right, dtype=common))
 
             key_left_all = concatenate_arrays(*key_left_all)
             key_right_all = concatenate_arrays(*key_right_all)
